@@ -5,7 +5,7 @@ memory.py and the simulation getters, and checks the denotation directly on the 
 from __future__ import annotations
 from runner import Slice
 import gen_rv, toy_exec as T
-from common import make_sim, lower_memory
+from common import make_sim, lower_memory, cache_options
 
 RULE = ("format: get_n_bit_representations(v, n) for widths 12/16 (every value in the thorough tier), 32 (boundary + random), "
         "odd widths 1..40, negative and over-wide v; compared with the model and read back directly (binary/hex/decimal "
@@ -206,14 +206,20 @@ class TablesHistory(Slice):
             for _ in range(rng.randrange(0, 14)):
                 ops.append(rng.choice(["step", "step", "inspect"]))
             ops.append("inspect")
-        return {"ops": ops, "five": rng.random() < 0.4, "toy": False}
+        import gen_rv
+        return {"ops": ops, "five": rng.random() < 0.4, "toy": False,
+                "dcfg": gen_rv.gen_cache_cfg(rng) if rng.random() < 0.5 else []}
 
     def run(self, case, model):
         import fixedint
         from architecture_simulator.simulation.riscv_simulation import RiscvSimulation
-        sim = RiscvSimulation(mode="five_stage_pipeline" if case["five"] else "single_stage_pipeline")
+        import rv_asm as RA
+        sim = RiscvSimulation(mode="five_stage_pipeline" if case["five"] else "single_stage_pipeline",
+                              data_cache=cache_options(case.get("dcfg") or []))
         sim.state.register_file.registers[4] = fixedint.UInt32(0x4000 + 64)
         findings, cl = [], set()
+        if case.get("dcfg"):
+            cl.add("wb-cache" if not case["dcfg"][4] else "wt-cache")
         for k, op in enumerate(case["ops"]):
             try:
                 if isinstance(op, list):
@@ -249,7 +255,7 @@ class TablesHistory(Slice):
         return "rows" in classes
 
     def required_classes(self, tier):
-        return ["rows", "load", "inspect"]
+        return ["rows", "load", "inspect", "wb-cache", "wt-cache"]
 
     def shrink(self, case):
         ops = case["ops"]
